@@ -148,6 +148,10 @@ type runner struct {
 	stopM chan struct{}
 	wgM   sync.WaitGroup
 	cmd   string
+
+	scanMu    sync.Mutex
+	scans     map[*mon.ConnRec]*connScan
+	malformed string
 }
 
 func (r *runner) witness() map[string]interface{} {
@@ -247,20 +251,33 @@ func (r *runner) send(n int, mid func()) int {
 	}
 }
 
-func (r *runner) received() int {
-	n := 0
-	for _, c := range r.ep.Conns() {
-		n += bytes.Count(c.Data(), []byte("\n"))
-	}
-	return n
-}
+func (r *runner) received() int { return int(r.ep.TotalBytes()) }
 
 // countLines counts complete lines over all connections that carry this case's ids
-// (probe lines excluded) and checks they are well-formed.
+// (probe lines excluded) and checks they are well-formed. Incremental: every
+// connection's stream is only parsed once.
+type connScan struct {
+	off  int // bytes consumed so far
+	n    int
+	tail []byte
+}
+
 func (r *runner) countLines() (n int, malformed string) {
+	r.scanMu.Lock()
+	defer r.scanMu.Unlock()
+	if r.scans == nil {
+		r.scans = map[*mon.ConnRec]*connScan{}
+	}
 	prefix := []byte(fmt.Sprintf("c06.%d.l", r.c.Index))
 	for _, c := range r.ep.Conns() {
-		data := c.Data()
+		sc := r.scans[c]
+		if sc == nil {
+			sc = &connScan{}
+			r.scans[c] = sc
+		}
+		nd := c.DataFrom(sc.off)
+		sc.off += len(nd)
+		data := append(sc.tail, nd...)
 		for len(data) > 0 {
 			nl := bytes.IndexByte(data, '\n')
 			if nl < 0 {
@@ -272,12 +289,17 @@ func (r *runner) countLines() (n int, malformed string) {
 				continue
 			}
 			if !bytes.HasPrefix(l, prefix) || bytes.Count(l, []byte(" ")) != 2 {
-				return n, fmt.Sprintf("%.120q", l)
+				if r.malformed == "" {
+					r.malformed = fmt.Sprintf("%.120q", l)
+				}
+				continue
 			}
-			n++
+			sc.n++
 		}
+		sc.tail = append([]byte(nil), data...)
+		n += sc.n
 	}
-	return n, ""
+	return n, r.malformed
 }
 
 func (r *runner) flushDest() {
